@@ -7,6 +7,7 @@
 import json, os, shutil, subprocess, sys, time
 
 V = os.path.dirname(os.path.dirname(os.path.abspath(__file__)))
+REPO = os.environ.get("VERIF_REPO", "/repo")
 ENV = dict(os.environ, GOFLAGS="-mod=mod", GOPROXY="off", GOSUMDB="off", GOTOOLCHAIN="local")
 
 
@@ -86,15 +87,15 @@ def keep(mut, sid):
 def detect(sdir, tier, props):
     meta = json.load(open(os.path.join(sdir, "meta.json")))
     props = props or [meta["property"]]
-    rc, out = sh("git status --porcelain", "/repo")
+    rc, out = sh("git status --porcelain", REPO)
     if out.strip():
         print("/repo is dirty, refusing"); sys.exit(2)
-    rc, out = sh("git apply %s/patch.diff" % os.path.abspath(sdir), "/repo")
+    rc, out = sh("git apply %s/patch.diff" % os.path.abspath(sdir), REPO)
     if rc != 0:
-        rc, out = sh("git apply --3way %s/patch.diff" % os.path.abspath(sdir), "/repo")
+        rc, out = sh("git apply --3way %s/patch.diff" % os.path.abspath(sdir), REPO)
         if rc != 0:
-            print("patch does not apply:", out); sh("git checkout -- . ; git reset -q", "/repo"); sys.exit(2)
-        sh("git reset -q", "/repo")
+            print("patch does not apply:", out); sh("git checkout -- . ; git reset -q", REPO); sys.exit(2)
+        sh("git reset -q", REPO)
     results = meta.get("detection", {})
     try:
         for p in props:
@@ -104,7 +105,7 @@ def detect(sdir, tier, props):
             results["%s/%s" % (p, tier)] = {"exit": rc, "detected": rc == 1, "wall_s": round(time.time() - t0, 1), "lines": lines[:8]}
             print(p, tier, "exit", rc, "DETECTED" if rc == 1 else "missed", "; ".join(lines[:3]))
     finally:
-        sh("git checkout -- .", "/repo")
+        sh("git checkout -- .", REPO)
     meta["detection"] = results
     json.dump(meta, open(os.path.join(sdir, "meta.json"), "w"), indent=1)
 
